@@ -391,6 +391,8 @@ class Engine:
         name = rng.choice(list(self.descs))
         d = self.descs[name]
         ws = self.pick_wells(name, same_column=True)
+        if rng.random() < 0.3:
+            rng.shuffle(ws)  # wells in any order (the tracking must still charge well i with volume i)
         n = len(ws)
         tips = sorted(rng.sample(range(1, 9), n))
         aims, fault = self.pick_aims(n)
